@@ -31,7 +31,12 @@ TExtent == /\ IsEvent("extent")
               /\ t.hasMinMax => (t.mn = st.mn /\ t.mx = st.mx)
               /\ t.sm = st.sm
               /\ t.hasScale => (IF MaxSide(st) = 0 THEN t.inf ELSE ~t.inf /\ t.side = MaxSide(st))
-TraceNext == TReset \/ TAabb \/ TObb \/ TInclude \/ TExtent
+\* one-dimensional intervals (the scalar specialisation): membership, hull, width, centre
+TInterval1 == /\ IsEvent("interval1")
+              /\ LET t == Tr[l] IN
+                 /\ t.exact /\ t.inside = (2 * t.l1 <= t.p2 /\ t.p2 <= 2 * t.u1)
+                 /\ t.rl = Min2(t.l1, t.l2) /\ t.ru = Max2(t.u1, t.u2) /\ t.w = t.u1 - t.l1 /\ t.c2 = t.l1 + t.u1
+TraceNext == TInterval1 \/ TReset \/ TAabb \/ TObb \/ TInclude \/ TExtent
 TraceSpec == TraceInit /\ [][TraceNext]_l
 TraceAccepted == TLCGet("stats").diameter - 1 = Len(Tr)
 =============================================================================
